@@ -309,6 +309,18 @@ class Vpes:
         return {"region": reg, "calls": calls, "constructs": constructs, "literals": lits, "exits": ex}
 
 
+def key_shapes(v, key):
+    """all (sigma, region) for every variant of the enum discriminated at `key` = (root local, field path)"""
+    out = []
+    adt = v.discr_adt.get(key)
+    if adt is None:
+        return out
+    for var in v.variants_of(adt):
+        for s, reg in v.expand({key: var}):
+            out.append((s, reg))
+    return out
+
+
 def top_shapes(v, root):
     """all (sigma, region) for every top-level variant of root (with nested expansion)"""
     adt = v.roots[root]
